@@ -1,5 +1,5 @@
 SPECIFICATION USpec
 CONSTANTS MaxFrames = 4
 CONSTRAINT Bound
-INVARIANTS HandlersNest CaughtInsideLoop
+INVARIANTS HandlersNest CaughtInsideLoop SearchDecided
 CHECK_DEADLOCK FALSE
